@@ -26,6 +26,8 @@ def main():
             if fn.endswith(".json"):
                 extra[fn[:-5]] = json.load(open(os.path.join(d, fn)))
     checks, na = [], []
+    # only the properties the coordinator has validated (silent at several seeds) are claimed
+    claimed = set(open(os.path.join(ROOT, "scripts", "claimed.txt")).read().split())
     for pr in props:
         pid = pr["id"]
         ent = None
@@ -34,7 +36,7 @@ def main():
             ent = (e["technique"], e["text"], e["note"], e.get("design_ref", "DESIGN.md §6 " + pid))
         elif pid in CHECKS:
             ent = CHECKS[pid]
-        if ent and os.path.isdir(os.path.join(ROOT, "harness", "cmd", pid.lower())):
+        if ent and pid in claimed and os.path.isdir(os.path.join(ROOT, "harness", "cmd", pid.lower())):
             tech, text, note, ref = ent
             checks.append({
                 "property_id": pid,
